@@ -17,7 +17,7 @@ from .. import rustbridge as rb
 
 from pce500.memory import PCE500Memory
 
-PALETTE = [0x000000, 0x001FFF, 0x002000, 0x00200F, 0x002010, 0x03FFFF, 0x040000, 0x041FFF, 0x042000, 0x04FFFF, 0x050000,
+PALETTE = [0x000000, 0x001FFF, 0x002000, 0x00200F, 0x002010, 0x03FFFF, 0x040000, 0x041FFF, 0x042000, 0x04FFFF, 0x050000, 0x05000E, 0x05000F,
            0x07FFFF, 0x080000, 0x087FFF, 0x088000, 0x0B7FFF, 0x0B8000, 0x0BFFFF, 0x0C0000, 0x0FFEFF, 0x0FFF00, 0x0FFFFA,
            0x0FFFFF, 0x100000, 0x1000EC, 0x1000EF, 0x1000F3, 0x1000FB, 0x1000FF]
 ALIASES = [0x1000000, 0xFF000000]
@@ -50,6 +50,14 @@ def configs(thorough: bool) -> List[Dict[str, Any]]:
         if ro:
             cfg["readonly"] = [(0x00000, 0x01FFF)]
         out.append(cfg)
+        if ovl and not rom and not mirror and not ro:
+            adj = dict(cfg)
+            adj["ram_overlays"] = [(0x50000, 0x10), (0x50010, 0x10)]     # two adjacent RAM overlays: accesses may span both
+            out.append(adj)
+        if card and not rom and not ovl and not mirror and not ro:
+            roc = dict(cfg)
+            roc["card_writable"] = False       # read-only card (Python only: the Rust image has no such switch)
+            out.append(roc)
         if rom and not mirror and not ro:
             short = dict(cfg)
             short["rom_len"] = 0x100          # image shorter than the 0xC0000-0xFFFFF window (Python only: overlay data < window)
@@ -208,6 +216,8 @@ def judge(impl, cfg, hist, outs, probe_vals, pr, vb: VB, pre_probe: Optional[Lis
     against the reference (used for the initial state and the load scripts)."""
     wit = lambda: {"impl": impl, "cfg": _cfg_json(cfg), "history": [list(o) for o in hist]}  # noqa: E731
     cfgtag = "+".join(k for k in ("rom_image", "rom_len", "card", "ram_overlays", "readonly", "mirror") if cfg.get(k)) or "plain"
+    if cfg.get("card_writable") is False:
+        cfgtag += "+card-readonly"
     if pre_probe is None:
         ref_outs, ref_probe, r = run_ref(cfg, hist, pr, impl)
         for i, (a, b) in enumerate(zip(outs, ref_outs)):
@@ -279,7 +289,7 @@ def _cfg_json(cfg):
 
 def events(seed: int) -> List[Tuple]:
     ev = []
-    addrs = list(PALETTE) + [PALETTE[i] + al for i in (0, 6, 16, 19, 23, 28) for al in ALIASES] + [0x100100, 0xFFFFFF]
+    addrs = list(PALETTE) + [a + al for a in (0x000000, 0x040000, 0x0B8000, 0x0FFEFF, 0x100000, 0x1000FF) for al in ALIASES] + [0x100100, 0xFFFFFF]
     vals = list(VALUES)
     if seed:
         vals.append((seed * 0x9E3779B1) & 0xFFFFFF)
@@ -358,17 +368,17 @@ def run(ctx) -> None:
     cfgs = configs(ctx.thorough)
     evs = events(ctx.seed)
     depth = 2
-    small = [e for e in evs if (e[3] in (0xA5, 0x5AA5C3, 0x5A) or (e[3] == 0 and e[2] == 1)) and e[1] in (0x0, 0x1FFF, 0x40000, 0x41FFF, 0x4FFFF, 0x87FFF, 0xB8000, 0xBFFFF,
+    small = [e for e in evs if (e[3] in (0xA5, 0x5AA5C3, 0x5A) or (e[3] == 0 and e[2] == 1)) and e[1] in (0x0, 0x1FFF, 0x40000, 0x41FFF, 0x4FFFF, 0x5000F, 0x87FFF, 0xB8000, 0xBFFFF,
                                                                            0xC0000, 0xFFFFF, 0x1000FF, 0x1000EC, 0x100000, 0xFFF00)]
     jobs = []
     n = nproc()
     for impl in ("python", "rust"):
-        use = [c for c in cfgs if (impl == "rust" and not c.get("rom_len")) or (impl == "python" and not (c.get("mirror") or c.get("readonly")))]
+        use = [c for c in cfgs if (impl == "rust" and not c.get("rom_len") and c.get("card_writable", True)) or (impl == "python" and not (c.get("mirror") or c.get("readonly")))]
         for cs in chunks(use, n):
             jobs.append((impl, cs, evs, small if not ctx.thorough else evs[::2], depth))
     res = pmap(_shard, jobs)
     lres = pmap(_loads, [(impl, cs) for impl in ("python", "rust")
-                         for cs in chunks([c for c in cfgs if (impl == "rust" and not c.get("rom_len")) or (impl == "python" and not (c.get("mirror") or c.get("readonly")))], 4)])
+                         for cs in chunks([c for c in cfgs if (impl == "rust" and not c.get("rom_len") and c.get("card_writable", True)) or (impl == "python" and not (c.get("mirror") or c.get("readonly")))], 4)])
     for r in res + lres:
         ctx.merge_bucket(r["vb"])
     ctx.level = "model_checking"
